@@ -41,6 +41,15 @@ RULES = {
     "R-SPLIT-ABUT": ("rules.derived", "r_split_abut"),
     "R-PAR-DELEGATION": ("rules.derived", "r_par_delegation"),
     "R-SERDE": ("rules.derived", "r_serde"),
+    "R-SWEEP-RANGE": ("rules.round2", "r_sweep_range"),
+    "R-PROBE-STEP": ("rules.round2", "r_probe_step"),
+    "R-ZST-PTR": ("rules.round2", "r_zst_ptr"),
+    "R-GROUP-DEFS": ("rules.round2", "r_group_defs"),
+    "R-CLONE-GUARD-RANGE": ("rules.round2", "r_clone_guard_range"),
+    "R-ALLOC-IDENTITY": ("rules.round2", "r_alloc_identity"),
+    "R-RESIZE-TARGET": ("rules.round2", "r_resize_target"),
+    "R-PAR-CONSUME": ("rules.round2", "r_par_consume"),
+    "R-SUBSET-LEN": ("rules.round2", "r_subset_len"),
     "R-SET-ASSIGN": ("rules.derived", "r_set_assign"),
     "R-HASHER-SOURCE": ("rules.derived", "r_hasher_source"),
     "R-DROP-ORDER": ("rules.ownership", "r_drop_order"),
@@ -73,6 +82,7 @@ SERDE_CFGS = ("all", "all-generic", "serde", "all-release-shape")
 RULE_CONFIGS = {
     "R-PAR-LINEAR": RAYON_CFGS, "R-SPLIT-ABUT": RAYON_CFGS, "R-PAR-DELEGATION": RAYON_CFGS,
     "R-SERDE": SERDE_CFGS,
+    "R-PAR-CONSUME": RAYON_CFGS,
 }
 # properties whose code only exists with a feature: quick tier must include a config that has it (all)
 
@@ -258,3 +268,31 @@ for _p in ("C02", "C06", "C07", "C14", "C15", "C16"):
     PROPS[_p]["extra_technique"] = "compile-fail witnesses with twins (rustc borrowck / trait solver)"
 for _p in PROPS:
     PROPS[_p]["extra"].append(("selfcheck", "hook", "thorough"))
+
+# rules added after the second round of independent mutations (DESIGN.md 12.6)
+_ROUND2 = {'C01': ['R-PROBE-STEP', 'R-SWEEP-RANGE', 'R-RESIZE-TARGET'], 'C02': ['R-VARIANCE', 'R-AUTO', 'R-ZST-PTR', 'R-SWEEP-RANGE', 'R-PROBE-STEP', 'R-GROUP-DEFS', 'R-ALLOC-IDENTITY'], 'C03': ['R-SWEEP-RANGE', 'R-ALLOC-IDENTITY', 'R-CLONE-GUARD-RANGE'], 'C04': ['R-SWEEP-RANGE', 'R-CLONE-GUARD-RANGE'], 'C05': ['R-SWEEP-RANGE', 'R-PROBE-STEP'], 'C06': ['R-PROBE-STEP', 'R-DROPGLUE', 'R-SWEEP-RANGE'], 'C07': ['R-SUBSET-LEN'], 'C08': ['R-RESIZE-TARGET'], 'C09': ['R-GROUP-DEFS'], 'C11': ['R-CLONE-GUARD-RANGE', 'R-ALLOC-IDENTITY'], 'C12': ['R-RESIZE-TARGET', 'R-RESERVE-GUARD'], 'C13': ['R-RESIZE-TARGET', 'R-CTRL-WRITE', 'R-SWEEP-RANGE'], 'C17': ['R-PROBE-STEP'], 'C19': ['R-PAR-CONSUME']}
+for _p, _rs in _ROUND2.items():
+    for _r in _rs:
+        if _r not in PROPS[_p]["rules"]:
+            PROPS[_p]["rules"].append(_r)
+
+_ROUND2_CLAUSE = {
+    "R-SWEEP-RANGE": "loops that must visit every bucket run over 0..buckets() (R-SWEEP-RANGE)",
+    "R-PROBE-STEP": "the probe stride grows before it is added and the position is re-masked, so no group is visited twice per cycle (R-PROBE-STEP)",
+    "R-ZST-PTR": "zero-sized elements get the aligned dangling pointer, never the index encoding (R-ZST-PTR)",
+    "R-GROUP-DEFS": "every scanner back-end defines match_full as the inversion of match_empty_or_deleted (R-GROUP-DEFS)",
+    "R-CLONE-GUARD-RANGE": "the clone guard's index is slot + 1 and advanced after the write (R-CLONE-GUARD-RANGE)",
+    "R-ALLOC-IDENTITY": "blocks are obtained from and returned to the table's own allocator (R-ALLOC-IDENTITY)",
+    "R-RESIZE-TARGET": "the resize capacity derives from items + additional and the in-place path has no extra condition (R-RESIZE-TARGET)",
+    "R-PAR-CONSUME": "every element taken from the drain cursor is read before return; intermediate lists are concatenated in source order (R-PAR-CONSUME)",
+    "R-SUBSET-LEN": "is_subset scans exactly when self.len() <= other.len() (R-SUBSET-LEN)",
+    "R-VARIANCE": "mutable-access types are invariant (R-VARIANCE)",
+    "R-AUTO": "Send/Sync bounds respect the access classes (R-AUTO)",
+    "R-DROPGLUE": "accounting independent of drop glue (R-DROPGLUE)",
+    "R-RESERVE-GUARD": "growth exactly when additional > growth_left (R-RESERVE-GUARD)",
+    "R-CTRL-WRITE": "mirrored control bytes maintained (R-CTRL-WRITE)",
+}
+for _p, _rs in _ROUND2.items():
+    _extra = "; ".join(_ROUND2_CLAUSE[_r] for _r in _rs if _r in _ROUND2_CLAUSE)
+    if _extra and _extra not in PROPS[_p]["decided"]:
+        PROPS[_p]["decided"] += "; also: " + _extra
